@@ -54,7 +54,7 @@ def _qd():
     return qd
 
 
-def unit_backward(xl_form, xu_form, pattern, alias=False):
+def unit_backward(xl_form, xu_form, pattern, alias=False, obj_unused=False):
     """pattern over {T: tensor used by f, U: tensor requiring grad that f ignores, N: tensor without grad, X: number}"""
     qd = _qd()
     from xitorch._core.pure_function import get_pure_function
@@ -80,6 +80,22 @@ def unit_backward(xl_form, xu_form, pattern, alias=False):
             log.append((x, pt, st.is_grad_enabled()))
             return out
         pfn = get_pure_function(integrand)
+        objt = []
+        if obj_unused:
+            import xitorch
+            theta = st.vec("theta", (2,), (0,), requires_grad=True)
+            objt = [theta]
+
+            class Holder(xitorch.EditableModule):
+                def __init__(self):
+                    self.theta = theta          # held by the object, listed as a parameter, ignored by the integrand
+
+                def f(self, x, *ps):
+                    return integrand(x, *ps)
+
+                def getparamnames(self, methodname, prefix=""):
+                    return [prefix + "theta"]
+            pfn = get_pure_function(Holder().f)
 
         def mk(kind, name):
             if kind == "tensor_grad":
@@ -96,7 +112,9 @@ def unit_backward(xl_form, xu_form, pattern, alias=False):
         bck = {"n": 11}
         with kit.patched(qd, "leggauss", lambda *a, **k: res):
             with st.no_grad():
-                qd._Quadrature.forward(fctx, pfn, xl, xu, dict(fwd), bck, len(params), st.float64, st._cpu, *params)
+                qd._Quadrature.forward(fctx, pfn, xl, xu, dict(fwd), bck, len(params), st.float64, st._cpu, *params, *objt)
+        c.check("forward_leaves_the_callers_option_dictionaries_untouched", fwd == {"method": "leggauss", "n": 7} and bck == {"n": 11}
+                and getattr(fctx, "bck_config", None) is not bck, detail="bck_options now %r" % (bck,))
         del log[:]
         inner = []
 
@@ -116,12 +134,16 @@ def unit_backward(xl_form, xu_form, pattern, alias=False):
         if not ok:
             return
         c.ok("backward_does_not_raise")
-        c.check("arity_is_8_plus_number_of_parameters", isinstance(out, tuple) and len(out) == 8 + len(params))
-        if not (isinstance(out, tuple) and len(out) == 8 + len(params)):
+        c.check("arity_is_8_plus_number_of_parameters", isinstance(out, tuple) and len(out) == 8 + len(params) + len(objt))
+        if not (isinstance(out, tuple) and len(out) == 8 + len(params) + len(objt)):
             return
+        if objt:
+            go_ = out[8 + len(params)]
+            c.check("object_held_tensor_the_integrand_ignores_gets_no_or_zero_gradient", go_ is None or
+                    (isinstance(go_, st.Tensor) and go_.kind in ("sc", "vec") and go_.v.is_zero()))
         c.check("non_tensor_slots_are_None", out[0] is None and all(o is None for o in out[3:8]))
         gxl, gxu = out[1], out[2]
-        gp = out[8:]
+        gp = out[8:8 + len(params)]
 
         def lim_val(x):
             if isinstance(x, st.Tensor) and getattr(x, "ext", None) is not None:
@@ -142,7 +164,7 @@ def unit_backward(xl_form, xu_form, pattern, alias=False):
                     want = alg.ip(g.v, fx.v).re * sign
                     c.prove("grad_%s_is_%s<g,f(%s)>" % (nm, "+" if sign > 0 else "-", nm), gx.v.re == want)
         # the inner quad
-        ntens = len([k for k in pattern if k in "TU"])
+        ntens = len([k for k in pattern if k in "TU"]) + len(objt)
         if ntens == 0:
             c.check("no_parameter_integral_without_tensor_parameters", len(inner) == 0)
             c.check("all_parameter_slots_None", all(x is None for x in gp))
@@ -159,7 +181,7 @@ def unit_backward(xl_form, xu_form, pattern, alias=False):
                 call["opts"] == {k: v for k, v in eff.items() if k != "method"}, detail="options seen by the rule: %r" % (call["opts"],))
         c.check("inner_quad_gets_the_backward_options_for_higher_order", call["bck_options"] == eff)
         c.prove("inner_quad_integrates_over_the_same_limits", z3.And(lim_val(call["xl"]) == lim_val(xl), lim_val(call["xu"]) == lim_val(xu)))
-        tps = [p for p, k in zip(params, pattern) if k in "TU"]
+        tps = [p for p, k in zip(params, pattern) if k in "TU"] + objt
         c.check("inner_quad_params_are_cotangent_and_tensor_params", len(call["params"]) == 1 + len(tps) and call["params"][0] is g
                 and all(a is b for a, b in zip(call["params"][1:], tps)))
         # integrand of the inner quad = VJP of f w.r.t. each tensor parameter, at the node
@@ -190,7 +212,8 @@ def unit_backward(xl_form, xu_form, pattern, alias=False):
             j += 1
         c.check("state_change_lock_released", pfn._state_change_allowed is True)
         c.prove("canary", z3.BoolVal(False), kind="canary")
-    return kit.run_unit("backward[%s,%s,%s%s]" % (xl_form, xu_form, pattern or "-", ",same_tensor_twice" if alias else ""), run)
+    return kit.run_unit("backward[%s,%s,%s%s%s]" % (xl_form, xu_form, pattern or "-", ",same_tensor_twice" if alias else "",
+                                                  ",object_tensor_unused" if obj_unused else ""), run)
 
 
 def _bwd(qd, fctx, g, quad_contract, grad_mode):
@@ -206,4 +229,6 @@ def units(tier):
              ("tensor_grad", "inf", "T"), ("inf", "tensor_grad", "T"), ("tensor", "tensor_grad", "U")]
     us = [("backward[%s,%s,%s]" % (a, b, p or "-"), (lambda a=a, b=b, p=p: unit_backward(a, b, p))) for a, b, p in cases]
     us.append(("backward[number,number,TT,same_tensor_twice]", lambda: unit_backward("number", "number", "TT", True)))
+    us.append(("backward[number,number,-,object_tensor_unused]", lambda: unit_backward("number", "number", "", False, True)))
+    us.append(("backward[tensor_grad,number,X,object_tensor_unused]", lambda: unit_backward("tensor_grad", "number", "X", False, True)))
     return us
